@@ -246,7 +246,7 @@ func symEvalAtomRaw(f string, val map[string]float64) (float64, bool) {
 		// the abstract ranks double as coordinates on an integer grid
 		var r int64
 		if _, err := fmt.Sscanf(f, "r%d", &r); err == nil && rankVar(r) == f {
-			return float64(r), true
+			return float64(r) * val["__ranks"], true // the value of "__ranks" is the grid spacing
 		}
 	}
 	if f == "NaN" {
